@@ -2,7 +2,7 @@
    keep the classes and the union-find table (`cuR`), shared by the Sound*.v files. *)
 From SE Require Import Slots.SlotMapFacts Group.GroupSound Lang.LangFacts Lang.ShapeFacts Lang.RenameFacts
   EGraph.Model EGraph.ModelFacts EGraph.ModelMachine EGraph.UnionFindFacts EGraph.InvariantFacts
-  EGraph.UnionInvariantFacts EGraph.AddCoversFacts EGraph.MonotoneFacts EGraph.SoundFacts EGraph.SoundSyn.
+  EGraph.UnionInvariantFacts EGraph.AddCoversFacts EGraph.MonotoneFacts EGraph.SoundFacts EGraph.SoundUnion EGraph.SoundSyn.
 From SE Require Import Sem.Deriv Sem.DerivFacts Sem.AlgebraFacts Sem.EgMachine Explain.CheckerFacts.
 Require Import ZArith Lia ZifyBool ZifyN ZifyNat.
 Ltac Zify.zify_post_hook ::= Z.div_mod_to_equations.
@@ -11,10 +11,33 @@ Local Notation "a ** b" := (compose_partial a b) (at level 40, left associativit
 Local Notation inv := inverse_nocheck.
 Local Notation ectr := Model.ctr.
 
-(* the interface of the union core *)
+(* the interface of the union core: the statement proved in SoundUnion.v (same body as
+   SoundUnion.ui_spec_sound: with the structural invariant mod4_ok of the pre-state) *)
 Definition ui_spec_sound (E : equations) (ui : appid -> appid -> M bool) : Prop :=
-  forall l r s b s', inv3 s -> Sound E s -> covers s l -> covers s r -> sim E s l r ->
+  forall l r s b s', inv3 s -> mod4_ok s -> Sound E s -> covers s l -> covers s r -> sim E s l r ->
     ui l r s = Ok (b, s') -> Sound E s'.
+
+(* DISCHARGED: the union core (SoundUnion.sound_union_internal_closed) *)
+Theorem ui_spec_sound_closed : forall E fuel, ui_spec_sound E (union_internal fuel).
+Proof. exact sound_union_internal_closed. Qed.
+
+(* mod4_ok along the steps: the p4 lemmas (pres R4) of SoundUnion.v *)
+Lemma m4_pc_congruence : forall a b s x s', mod4_ok s -> pc_congruence a b s = Ok (x, s') -> mod4_ok s'.
+Proof. intros a b s x s' M H. exact (p4_pc_congruence a b s x s' H M). Qed.
+Lemma m4_uint : forall l r s x s', mod4_ok s -> uint l r s = Ok (x, s') -> mod4_ok s'.
+Proof. intros l r s x s' M H. exact (p4_uint l r s x s' H M). Qed.
+Lemma m4_raw_remove : forall id sh s x s', mod4_ok s -> raw_remove_from_class id sh s = Ok (x, s') -> mod4_ok s'.
+Proof. intros id sh s x s' M H. exact (p4_raw_remove id sh s x s' H M). Qed.
+Lemma m4_handle_shrink : forall src s x s', mod4_ok s -> handle_shrink_in_upwards_merge src s = Ok (x, s') -> mod4_ok s'.
+Proof. intros src s x s' M H. exact (p4_handle_shrink src s x s' H M). Qed.
+Lemma m4_synify_app_id : forall a s x s', mod4_ok s -> synify_app_id a s = Ok (x, s') -> mod4_ok s'.
+Proof. intros a s x s' M H. exact (p4_synify_app_id a s x s' H M). Qed.
+Lemma m4_handle_pending : forall sh ty s x s', mod4_ok s -> handle_pending sh ty s = Ok (x, s') -> mod4_ok s'.
+Proof. intros sh ty s x s' M H. exact (p4_handle_pending sh ty s x s' H M). Qed.
+Lemma m4_rebuild : forall fuel s x s', mod4_ok s -> rebuild fuel s = Ok (x, s') -> mod4_ok s'.
+Proof. intros fuel s x s' M H. exact (p4_rebuild fuel s x s' H M). Qed.
+Lemma m4_set_pending : forall s p, mod4_ok s -> mod4_ok (set_pending s p).
+Proof. intros s p M. apply (R4_same s (set_pending s p)); [reflexivity|reflexivity|reflexivity|exact M]. Qed.
 
 (* steps that keep the classes and the union-find table *)
 Definition cuR (s s' : egraph) : Prop := classes s' = classes s /\ unionfind s' = unionfind s.
